@@ -249,8 +249,22 @@ func c30Exec[I any](suite string, in I) (V, Verdict) {
 		return c30VRaw(rep.Obs), rep.Verdict
 	}
 	if hung {
-		site, _ := c30CrashSummary(trace)
-		return VS("HANG"), Fail("hang-at-"+site, "no reply from the child within 30s")
+		// a loaded machine can starve a child; only a hang that repeats alone,
+		// with a longer deadline, counts
+		w2, err := c30Spawn()
+		if err != nil {
+			panic(err)
+		}
+		rep2, died2, hung2, trace2 := w2.do(job, 120*time.Second)
+		switch {
+		case !died2 && !hung2:
+			c30Put(w2)
+			return c30VRaw(rep2.Obs), rep2.Verdict
+		case hung2:
+			site, _ := c30CrashSummary(trace2)
+			return VS("HANG"), Fail("hang-at-"+site, "no reply from the child within 120s, alone in a fresh process")
+		}
+		trace = trace2
 	}
 	if strings.Contains(trace, "c30-child:") {
 		panic("c30: harness error in the child process:\n" + c30Tail(trace, 2000))
